@@ -139,10 +139,16 @@ _WORKER = {}
 def _call(args):
     idx, unit = args
     fn = _WORKER["fn"]
+    hist = _WORKER.setdefault("hist", [])
     try:
         r = fn(unit, _WORKER["ctx"])
         for v in getattr(r, "violations", ()):
             v.setdefault("unit", unit)  # lets a replay fall back to re-running the whole unit (history-dependent results)
+            if len(hist) <= 600:
+                # ... and, failing that, everything this worker process had explored before (a result that depends on which models
+                # were alive or freed earlier in the process - an address-keyed memo - reproduces only with that history)
+                v.setdefault("unit_history", list(hist))
+        hist.append(unit)
         return idx, r, None
     except HarnessError as e:
         return idx, None, f"HarnessError in unit {unit!r}: {e}\n{traceback.format_exc()}"
